@@ -1,5 +1,5 @@
 (* C11 — dry mode performs no writes.  Theorems only. *)
-From Esc Require Import Examples proofs.ScanTheorems proofs.ScanChecks proofs.ScanRun proofs.ScanRunTheorems.
+From Esc Require Import Examples proofs.ScanTheorems proofs.ScanChecks proofs.ScanRun proofs.ScanRunTheorems proofs.ScanIsolation.
 
 (* with either dry-mode switch on, no call of the group's journal is a write — attempted writes included *)
 Theorem c11_no_writes : forall now gdry api g a nodes pods,
@@ -38,3 +38,16 @@ Proof. vm_compute. repeat split. Qed.
 Theorem c11_run_once : forall s, wf_groups s -> for_groups check_C11_group s (run_journals s) = true.
 Proof. exact run_passes_C11. Qed.
 Print Assumptions c11_run_once.
+
+(* enabling dry mode on one group does not change the actions taken on another group g: the two runs may differ in
+   every other group's configuration (its dry_mode switch included); g's journal, memory and outcome are the same *)
+Theorem c11_other_groups_unchanged : forall s s' g,
+  s_now s = s_now s' -> s_dry s = s_dry s' -> wf_groups s -> wf_groups s' -> In g (s_groups s) -> In g (s_groups s') ->
+  s_nodes s = s_nodes s' -> s_pods s = s_pods s' -> s_api s = s_api s' -> s_cloud s = s_cloud s' ->
+  forall r r', In (o_name (gi_opts g), r) (fst (run_once s)) -> In (o_name (gi_opts g), r') (fst (run_once s')) ->
+  r_calls r = r_calls r' /\ r_state r = r_state r' /\ r_out r = r_out r'.
+Proof.
+  intros s s' g Hnow Hdry Hw Hw' Hg Hg' Hn Hp Ha Hc. apply run_once_isolated; auto; try (rewrite ?Hn, ?Hp, ?Hc; reflexivity).
+  intros n _. rewrite Ha. reflexivity.
+Qed.
+Print Assumptions c11_other_groups_unchanged.
